@@ -14,7 +14,7 @@ from pyvc import sym
 from pyvc.sym import lift, SComplex
 from pyvc.interp import PyRaise
 from pyvc.oblig import obligation, verify, bounded, Goal, merge
-from .common import stable_rng, quick, Frame
+from .common import stable_rng, quick, Frame, arr, num
 from .C08 import _cmat, _pmat, _install_models, _ceq
 
 LEVEL = "proof"
@@ -55,9 +55,12 @@ def _setup(c, it, cfg, noise="sym", pathloss=True, rerandomize=False):
     draws = []
     _install_models(c, it, draws)
     K, ext = cfg["K"], cfg["ext"]
+    # rerandomize == "split": the first realisation has the same TOTAL antenna counts but another per-user split
+    Nr0 = np.roll(np.array(cfg["Nr"]), 1) if rerandomize == "split" else np.array(cfg["Nr"])
+    Nt0 = np.roll(np.array(cfg["Nt"]), 1) if rerandomize == "split" else np.array(cfg["Nt"])
     if ext:
         o = it.call(mu.MultiUserChannelMatrixExtInt, [])
-        it.call(it.getattr(o, "randomize"), [np.array(cfg["Nr"]), np.array(cfg["Nt"]), K, 1])
+        it.call(it.getattr(o, "randomize"), [Nr0, Nt0, K, 1])
         if pathloss:
             it.call(it.getattr(o, "set_pathloss"), [_pmat(c, "PL", K, K), _pmat(c, "PLe", K, 1)])
         if rerandomize:          # a new realisation drawn AFTER the path loss was set
@@ -65,7 +68,7 @@ def _setup(c, it, cfg, noise="sym", pathloss=True, rerandomize=False):
             it.call(it.getattr(o, "randomize"), [np.array(cfg["Nr"]), np.array(cfg["Nt"]), K, 1])
     else:
         o = it.call(mu.MultiUserChannelMatrix, [])
-        it.call(it.getattr(o, "randomize"), [np.array(cfg["Nr"]), np.array(cfg["Nt"]), K])
+        it.call(it.getattr(o, "randomize"), [Nr0, Nt0, K])
         if pathloss:
             it.call(it.getattr(o, "set_pathloss"), [_pmat(c, "PL", K, K)])
         if rerandomize:
@@ -87,6 +90,9 @@ def _setup(c, it, cfg, noise="sym", pathloss=True, rerandomize=False):
     for k in range(K):
         F[k] = _cmat(c, "F%d" % k, cfg["Nt"][k], cfg["Ns"][k])
         U[k] = _cmat(c, "U%d" % k, cfg["Nr"][k], cfg["Ns"][k])
+    # everything a native replay needs to rebuild the same situation on the real classes
+    c.inputs.update({"F": [F[k] for k in range(K)], "U": [U[k] for k in range(K)], "noise_var": nv,
+                     "channel": o.fields.get("_big_H_no_pathloss"), "pathloss": o.fields.get("_pathloss_matrix")})
     return o, F, U, nv
 
 
@@ -124,9 +130,65 @@ def _ratio_goals(label, r, num, den):
     return [Goal(label + ": numerator == |u^H H f|^2", n == num), Goal(label + ": denominator == interference+noise", d == den)]
 
 
+def _replay_channel_sinr(cf, noise, rerand):
+    """rebuild the counter-model on the real classes: same channel, path loss, noise, precoders and filters; compare calc_SINR with
+    the independent first-principles evaluator"""
+    def rp(mv):
+        import pyphysim.channels.multiuser as mu
+        try:
+            K, ext = cf["K"], cf["ext"]
+            Nr, Nt = np.array(cf["Nr"]), np.array(cf["Nt"])
+            big = arr(mv["channel"])
+            F = np.empty(K, dtype=object)
+            U = np.empty(K, dtype=object)
+            for k in range(K):
+                F[k], U[k] = arr(mv["F"][k]).reshape(cf["Nt"][k], cf["Ns"][k]), arr(mv["U"][k]).reshape(cf["Nr"][k], cf["Ns"][k])
+            nv = None if noise == "none" else (0.0 if noise == "zero" else num(mv.get("noise_var")))
+            if noise == "symint":
+                nv = int(nv)
+            pe = float(num(mv.get("pe"), 0.0)) if ext else 0.0
+            o = mu.MultiUserChannelMatrixExtInt() if ext else mu.MultiUserChannelMatrix()
+            args = (big, Nr, Nt, K, 1) if ext else (big, Nr, Nt, K)
+            if rerand:          # an earlier realisation, the path loss, then the realisation of the counter-model
+                if rerand == "split":
+                    o.randomize(*((np.roll(Nr, 1), np.roll(Nt, 1)) + args[3:]))
+                else:
+                    o.randomize(*args[1:])
+            else:
+                o.init_from_channel_matrix(*args)
+            pl = arr(mv["pathloss"], float) if mv.get("pathloss") is not None else None
+            if pl is not None:
+                if ext:         # stored as one K x (K + sources) matrix
+                    o.set_pathloss(pl[:, :K].copy(), pl[:, K:].copy())
+                else:
+                    o.set_pathloss(pl)
+            if rerand:
+                o.big_H
+                o.init_from_channel_matrix(*args)
+            o.noise_var = nv
+            S = o.calc_SINR(F, U, pe) if ext else o.calc_SINR(F, U)
+            bigp = o.big_H
+            cumr, cumt = np.hstack([0, np.cumsum(Nr)]), np.hstack([0, np.cumsum(list(Nt) + ([1] if ext else []))])
+            Hb = [[bigp[cumr[k]:cumr[k + 1], cumt[j]:cumt[j + 1]] for j in range(K + (1 if ext else 0))] for k in range(K)]
+            worst = None
+            for k in range(K):
+                for l in range(cf["Ns"][k]):
+                    want = _fp_sinr(Hb, F, U, k, l, nv, pe, [K] if ext else [])
+                    if np.isfinite(want) and (not (abs(S[k][l] - want) <= 1e-9 * max(abs(want), 1e-300))):
+                        worst = {"user": k, "stream": l, "calc_SINR": float(S[k][l]), "first_principles": float(want)}
+            if worst is None:
+                return {"confirmed": False, "note": "real classes agree with first principles at the counter-model"}
+            worst.update({"confirmed": True, "noise_var": nv, "max_abs_receive_filter_entry": float(max(np.abs(U[k]).max() for k in range(K)))})
+            return worst
+        except Exception as e:
+            return {"confirmed": False, "error": "replay crashed: %r" % (e,)}
+    return rp
+
+
 @obligation("channel/calc_SINR_first_principles", params=[{"cfg": n, "noise": nz, "rerand": rr} for n in CONFIGS for nz in ("sym", "none", "zero")
                                                           for rr in (False, True) if not (rr and nz != "sym")] +
-            [{"cfg": "K3", "noise": "symint", "rerand": False}, {"cfg": "EXT", "noise": "symint", "rerand": False}],
+            [{"cfg": "K3", "noise": "symint", "rerand": False}, {"cfg": "EXT", "noise": "symint", "rerand": False}] +
+            [{"cfg": n, "noise": "sym", "rerand": "split"} for n in ("K3", "EXT")],
             timeout=120,
             desc="calc_SINR(F,U) (plain and ext-int classes): every stream's value equals |u^H H_kk f_l|^2 / (all other streams of all users "
                  "+ external interference + filtered noise); non-negative; noise None/0/symbolic; current path loss")
@@ -139,6 +201,7 @@ def ob_channel_sinr(cfg, noise, rerand):
         if cf["ext"]:
             pe = c.var("pe", "real")
             c.assume(pe >= 0)
+            c.inputs["pe"] = pe
             S = it.call(it.getattr(o, "calc_SINR"), [F, U, pe])
         else:
             S = it.call(it.getattr(o, "calc_SINR"), [F, U])
@@ -152,7 +215,7 @@ def ob_channel_sinr(cfg, noise, rerand):
                 num, den = _spec_terms(c, it, o, cf, F, U, k, l, nv, pe)
                 goals += _ratio_goals("SINR[%d][%d]" % (k, l), S[k][l], num, den)
         return goals
-    return verify(body, timeout_ms=30000, check_side=False)
+    return verify(body, timeout_ms=30000, check_side=False, replay=_replay_channel_sinr(cf, noise, rerand))
 
 
 @obligation("channel/scale_invariance", params=[{"cfg": n} for n in ("K2", "EXT")], timeout=120,
@@ -388,6 +451,54 @@ def _fp_sinr(Hblocks, F, U, k, l, nv, pe=0.0, ext=()):
     return num / den
 
 
+@obligation("native/sum_capacity_large_and_small", kind="bounded",
+            desc="calc_sum_capacity() == sum over streams of log2(1 + SINR) also where the total is far from 1: interference-free links "
+                 "(block-diagonal channel, K 2..4, 1..3 streams each) at noise variances 1e-3 .. 1e-80 (totals up to several thousand "
+                 "bit) and at SINRs around 1e-12 (total ~ 1e-11 bit), relative 1e-9")
+def ob_sum_capacity():
+    import pyphysim.channels.multiuser as mu
+    import pyphysim.ia.algorithms as alg
+    r = stable_rng("C11cap")
+
+    def gen():
+        for i in range(40 if quick() else 300):
+            yield {"seed": int(r.randint(1 << 30)), "K": int(2 + i % 3), "ns": int(1 + (i // 3) % 3),
+                   "noise": [1e-3, 1e-20, 1e-60, 1e-80, 1e12][(i // 9) % 5]}
+
+    def check(case):
+        rr = np.random.RandomState(case["seed"])
+        K, ns, nv = case["K"], case["ns"], case["noise"]
+        n = ns + int(rr.randint(0, 2))
+        big = np.zeros((K * n, K * n), dtype=complex)
+        for k in range(K):
+            big[k * n:(k + 1) * n, k * n:(k + 1) * n] = rr.randn(n, n) + 1j * rr.randn(n, n)
+        o = mu.MultiUserChannelMatrix()
+        o.init_from_channel_matrix(big, np.full(K, n), np.full(K, n), K)
+        o.noise_var = nv
+        s = alg.ClosedFormIASolver(o)
+        F = np.empty(K, dtype=object)
+        U = np.empty(K, dtype=object)
+        for k in range(K):
+            A = rr.randn(n, ns) + 1j * rr.randn(n, ns)
+            F[k] = A / np.linalg.norm(A, 'fro')
+            U[k] = np.linalg.qr(rr.randn(n, ns) + 1j * rr.randn(n, ns))[0]
+        s.set_precoders(F, None, rr.rand(K) + 0.5)
+        s.set_receive_filters(None, U)
+        try:
+            S = s.calc_SINR()
+        except np.linalg.LinAlgError:
+            return None
+        vals = np.hstack([np.asarray(x, dtype=float) for x in S])
+        if not np.all(np.isfinite(vals)) or (not (vals.min() >= 0)):
+            return None
+        want = float(np.sum(np.log1p(vals)) / np.log(2)) if vals.max() < 1e-6 else float(np.sum(np.log2(1 + vals)))
+        got = float(s.calc_sum_capacity())
+        if (not (abs(got - want) <= 1e-9 * max(want, 1e-300) + (1e-16 * len(vals) if vals.max() < 1e-6 else 0.0))):
+            return {"calc_sum_capacity": got, "sum of log2(1+SINR) over the streams": want, "streams": int(len(vals)), "noise_var": nv}
+        return None
+    return bounded(gen(), check)
+
+
 @obligation("native/random_configurations", kind="bounded", timeout=900,
             desc="complex128: K 2..4, antennas 1..4, streams 1..min, random (non-aligned) precoders/filters, path loss, noise None/0/>0 "
                  "(given as float, int, numpy int64/float32/float64), "
@@ -412,10 +523,13 @@ def ob_native():
         Ns = np.array([rr.randint(1, min(a, b) + 1) for a, b in zip(Nr, Nt)])
         NtE = [int(rr.randint(1, 3))] if ext else []
         o = mu.MultiUserChannelMatrixExtInt() if ext else mu.MultiUserChannelMatrix()
+        # when a second realisation is drawn later (below), the first one has the same totals but a rotated per-user split
+        rerand = bool(case["seed"] % 2)
+        Nr0, Nt0 = (np.roll(Nr, 1), np.roll(Nt, 1)) if rerand else (Nr, Nt)
         if ext:
-            o.randomize(Nr, Nt, K, list(NtE))
+            o.randomize(Nr0, Nt0, K, list(NtE))
         else:
-            o.randomize(Nr, Nt, K)
+            o.randomize(Nr0, Nt0, K)
         if (not (rr.rand() >= 0.7)):
             if ext:
                 o.set_pathloss(rr.rand(K, K) + 0.01, rr.rand(K, len(NtE)) + 0.01)
@@ -433,7 +547,7 @@ def ob_native():
         H = o.H
         Hb = [[H[k, j] for j in range(H.shape[1])] for k in range(K)]
         extidx = list(range(K, K + len(NtE)))
-        if (not (rr.rand() >= 0.5)):
+        if rerand:
             # a new channel realisation after the path loss was set (first principles uses big_H blocks of the NEW state)
             o.big_H
             if ext:
